@@ -535,6 +535,7 @@ def accessor_checks(rep, R, ix, f, M, cc):
                 rep.check(attr in GENERIC_TERM, R, ix.site(f, node), "`%s`: %s exists on TerminalNode" % (" ".join(u(node).split())[:70], attr), key="term|" + attr)
     # presence of dereferenced children on the incomplete trees the listener sees
     nullness(rep, R, ix, f, M, cc, ty)
+    table_lookups(rep, R, ix, f)
     # definitely assigned names (simple: a name first bound only inside an if/elif chain without else, used later)
     maybe = possibly_unbound(fn)
     for name, use, why in maybe:
@@ -545,6 +546,71 @@ def accessor_checks(rep, R, ix, f, M, cc):
             rep.bad(R, ix.site(f, use), "name `%s` is definitely assigned before use" % name, why, key="unbound|" + name)
     if not maybe:
         rep.ok(R, ix.site(f), "all names are definitely assigned before use")
+
+
+def table_lookups(rep, R, ix, f):
+    """a finite literal table subscripted with something taken from the offending input (token text, token type, context) is total only if the
+    subscript is guarded: otherwise the report dies with KeyError for the first input outside the table"""
+    fn = f.node
+    consts = ix.const_env(f.mod)[0]
+    parents = {}
+    for n in ast.walk(fn):
+        for c in ast.iter_child_nodes(n):
+            parents[c] = n
+
+    def table(e):
+        v = consts.get(e.id) if isinstance(e, ast.Name) else e
+        if isinstance(v, ast.Dict) and v.keys and all(isinstance(k, ast.Constant) for k in v.keys):
+            return [k.value for k in v.keys]
+        return None
+
+    def finite_guard(test, key):
+        """values the key is restricted to by `key in (<constants>)` / `key == <constant>` (or-combinations), else None"""
+        if isinstance(test, ast.BoolOp) and isinstance(test.op, ast.Or):
+            parts = [finite_guard(t, key) for t in test.values]
+            return None if any(x is None for x in parts) else [y for x in parts for y in x]
+        if isinstance(test, ast.BoolOp) and isinstance(test.op, ast.And):
+            parts = [x for x in (finite_guard(t, key) for t in test.values) if x is not None]
+            return parts[0] if parts else None
+        if isinstance(test, ast.Compare) and len(test.ops) == 1 and u(test.left) == key:
+            c = test.comparators[0]
+            if isinstance(test.ops[0], ast.Eq) and isinstance(c, ast.Constant):
+                return [c.value]
+            if isinstance(test.ops[0], ast.In) and isinstance(c, (ast.Tuple, ast.List, ast.Set)) and all(isinstance(e, ast.Constant) for e in c.elts):
+                return [e.value for e in c.elts]
+        return None
+
+    for n in walk_shallow(fn):
+        if not (isinstance(n, ast.Subscript) and isinstance(n.ctx, ast.Load)):
+            continue
+        keys = table(n.value)
+        if keys is None or isinstance(n.slice, (ast.Constant, ast.Slice)):
+            continue
+        key = u(n.slice)
+        tname = u(n.value) if isinstance(n.value, ast.Name) else "<table>"
+        verdict = None
+        cur = n
+        while cur in parents and verdict is None:
+            par = parents[cur]
+            if isinstance(par, ast.Try) and cur in par.body and any(h.type is None or any(x in u(h.type) for x in ("KeyError", "LookupError", "Exception")) for h in par.handlers):
+                verdict = "ok"
+            elif isinstance(par, (ast.If, ast.IfExp)) and (cur in par.body if isinstance(par, ast.If) else cur is par.body):
+                t = par.test
+                for c in ([t] + (list(t.values) if isinstance(t, ast.BoolOp) and isinstance(t.op, ast.And) else [])):
+                    if isinstance(c, ast.Compare) and len(c.ops) == 1 and isinstance(c.ops[0], ast.In) and u(c.left) == key and u(c.comparators[0]) in (tname, tname + ".keys()"):
+                        verdict = "ok"
+                fin = finite_guard(t, key)
+                if verdict is None and fin is not None:
+                    verdict = "ok" if all(v in keys for v in fin) else "outside:%r" % [v for v in fin if v not in keys][:1]
+            cur = par
+        site = ix.site(f, n)
+        text = " ".join(u(n).split())[:70]
+        if verdict == "ok":
+            rep.ok(R, site, "`%s`: the lookup in the finite table is guarded" % text)
+        else:
+            rep.bad(R, site, "`%s`: a lookup in a finite table (%d entries) while reporting an error is guarded by a membership test or a KeyError handler" % (text, len(keys)),
+                    "the key `%s` comes from the offending input and nothing restricts it to the table's keys%s: the report ends in KeyError instead of BlackbirdSyntaxError "
+                    "(for a token text, e.g. the line end '\\r\\n' or a form feed)" % (key, "" if not verdict else " (%s)" % verdict), key="table|%s|%s" % (tname, key))
 
 
 def nullness(rep, R, ix, f, M, cc, ty):
